@@ -1,0 +1,30 @@
+//go:build verif
+
+// Contracts for package extensions, read by the /verif VC generator (govc). Comments only.
+
+package extensions
+
+// The no-op extension: transparent (C16, C17: "parse exactly as with no extension").
+//@ func (NoExtensionImpl).UpdateTrip
+//@   props C16 C05 C06
+//@   ensures !result.ShouldSkip
+//@   assigns nothing
+
+//@ func (NoExtensionImpl).UpdateVehicle
+//@   props C16 C05 C06
+//@   assigns nothing
+
+//@ func (NoExtensionImpl).UpdateAlert
+//@   props C17 C05 C06
+//@   ensures !result
+//@   assigns nothing
+
+//@ func (NoExtensionImpl).GetTrack
+//@   props C16 C05 C06
+//@   ensures result == nil
+//@   assigns nothing
+
+//@ func NoExtension
+//@   props C05
+//@   ensures result != nil
+//@   assigns nothing
